@@ -418,6 +418,23 @@ func TestDataCodecs(t *testing.T) {
 	ev.SetChecks(ev.Scale(240, 2000))
 	rapid.Check(t, func(rt *rapid.T) {
 		w := engineeredWorld(rt)
+		// entity uids that collide under a naive rendering (type and id concatenated without quoting / escaping)
+		if rapid.IntRange(0, 2).Draw(rt, "hostileuids") > 0 {
+			pool := []ir.Value{ir.Ent("A::B", "c"), ir.Ent("A", "B::c"), ir.Ent("A", "b\"c"), ir.Ent("A", "b\\\"c"), ir.Ent("A::B::C", ""), ir.Ent("A::B", "C::"), ir.Ent("A", "B::C::"),
+				ir.Ent("A", "x\"::A::\"y"), ir.Ent("A", "x"), ir.Ent("A", "X"), ir.Ent("a", "x"), ir.Ent("A", "x "), ir.Ent("A", " x")}
+			perm := rapid.Permutation(pool).Draw(rt, "hostileperm")
+			n := rapid.IntRange(2, len(pool)).Draw(rt, "nhostile")
+			for i, uid := range perm[:n] {
+				e := ir.Entity{UID: uid, Attrs: []ir.Field{ir.F("i", ir.Long(int64(i)))}}
+				// parents drawn from the same pool, so that the parent ordering is exercised as well
+				for j := 0; j < n; j++ {
+					if j != i && (i+j)%3 == 0 {
+						e.Parents = append(e.Parents, perm[j])
+					}
+				}
+				w.Store = append(w.Store, e)
+			}
+		}
 		c := &Case{Family: "data-codec", World: &w, R: R()}
 		o := gen.DefaultValOpts
 		o.Keys = gen.KeysHostile
